@@ -306,7 +306,7 @@ PROPS = {
     },
     "C10": {
         "extra_oracles": ["C10shared", "C10typed"],
-        "props": "theories/Props/C10.v", "gens": [("tables", "Codec/Gen_Tables.v")], "cluster": "expand", "gen": "expand", "ops": ["expand_spec"],
+        "props": "theories/Props/C10.v", "gens": [("tables", "Codec/Gen_Tables.v")], "cluster": "expand", "gen": "expand", "ops": ["expand_spec", "expand_schema", "expand_param", "expand_response"],
         "n": {"quick": 120, "thorough": 1500}, "oracle_n": {"quick": 100, "thorough": 2000},
         "rule": "correspondence: ExpandSpec on generated multi-document reference graphs (1-5 documents in the same/sub/parent directories and an http host; local, sibling, ./ ../, root-relative and absolute refs; nested-pointer and whole-document targets; escaped names; refs at every sub-schema keyword; parameters/responses/path items by $ref; cycles of every small topology; fault injection; all option combinations) + a bounded-exhaustive sample of graphs over <=3 definitions x <=2 documents; oracle: every definition/parameter/response of every root through each entry point (typed root, generic root, nil root + base location): the result's unfolding equals the element's unfolding in the root; root and caller options serialised before and after are unchanged",
         "trusted_base": COMMON_TB + ["Expand/Expand.v: hand model of expander.go / schema_loader.go / resolver.go on JSON trees (base-path threading, parent stack, memo of circular refs, resolver roots, deref chains, rebasing, SkipSchemas/ContinueOnError/AbsoluteCircularRef, cache and loader log); abstractions: sub-schemas visited in JSON member order, `#/` refs into the live root read the original root (outputs on cyclic graphs compared through unfoldings)",
